@@ -1,6 +1,6 @@
 (* C19 - Triangles cover their interior and polylines are the union of their segments.
    Statements only; every proof is `exact <lemma>` from Proofs/Polyline.v / Proofs/Triangle.v. *)
-From EG Require Import Base.Prelude Model.Geometry Model.Line Model.Polyline Model.Triangle Proofs.Polyline Proofs.Triangle.
+From EG Require Import Base.Prelude Model.Geometry Model.Line Model.Polyline Model.Triangle Proofs.Geometry Proofs.TriLine Proofs.Polyline Proofs.Triangle.
 From Coq Require Import Sorting.Sorted.
 
 (* ---- polylines --------------------------------------------------------------------------- *)
@@ -95,13 +95,34 @@ Proof. exact tri_points_row_major. Qed.
 Theorem C19_tri_points_in_bbox : forall t q, tri_ok t -> In q (tri_points t) -> contains (tri_bounding_box t) q = true.
 Proof. exact points_in_bbox. Qed.
 
-(* PARTIAL form of tri_within_one_pixel ("every covered point is inside the triangle or within one pixel of an
-   edge"): every covered point lies, in its row, between two Bresenham pixels of the sorted edges; each of those is
-   within half a pixel of its edge (C17_line_half_pixel_euclid / C17_line_within_ends).  The step from there to the
-   Euclidean statement (convexity of the distance to the triangle along a row) is OPEN, see Proofs/Triangle.v. *)
-Theorem C19_tri_within_one_pixel_partial : forall t q, tri_ok t -> In q (tri_points t) ->
-  exists a b, In (P a (py q)) (tri_fill_edges t) /\ In (P b (py q)) (tri_fill_edges t) /\ a <= px q <= b.
-Proof. exact points_between_edge_pixels. Qed.
+(* tri_within_one_pixel: every covered point is inside the closed triangle or is a Bresenham pixel of one of the three
+   sorted edges ... *)
+Theorem C19_tri_within_one_pixel : forall t q, tri_ok t -> area_doubled t <> 0 -> In q (tri_points t) ->
+  in_closed_tri t q \/ In q (tri_fill_edges t).
+Proof. exact points_closed_or_edge. Qed.
+
+(* ... which puts it within HALF a pixel of an edge segment.  near_edge l q :=
+     4 * cross_to l q ^2 <= |end - start|^2   (distance to the line <= 1/2)   /\
+     0 <= dot_to l q <= |end - start|^2       (the foot of the perpendicular is on the segment) *)
+Theorem C19_tri_within_half_pixel : forall t q, tri_ok t -> area_doubled t <> 0 -> In q (tri_points t) ->
+  in_closed_tri t q \/
+  let st := sorted_yx t in
+  near_edge (L (v1 st) (v2 st)) q \/ near_edge (L (v1 st) (v3 st)) q \/ near_edge (L (v2 st) (v3 st)) q.
+Proof. exact points_within_half_pixel. Qed.
+
+(* colinear / coincident vertices: exactly the Bresenham line between the extreme vertices *)
+Theorem C19_tri_degenerate_is_line : forall t q, tri_ok t -> area_doubled t = 0 ->
+  (In q (tri_points t) <-> In q (line_points (L (v1 (sorted_yx t)) (v3 (sorted_yx t))))).
+Proof.
+  intros t q Hok Ha. split; [apply points_deg_on_line; assumption|].
+  intros H. apply fill_edges_in_points; [assumption|]. apply long_edge_in_fill_edges, H.
+Qed.
+
+(* complete description of points(): the lattice points that lie in their row between two pixels of the sorted edge lines *)
+Theorem C19_tri_points_spec : forall t q, tri_ok t ->
+  (In q (tri_points t) <->
+   exists a b, In (P a (py q)) (tri_fill_edges t) /\ In (P b (py q)) (tri_fill_edges t) /\ a <= px q <= b).
+Proof. exact tri_points_spec. Qed.
 
 (* non-vacuity: a triangle with a shallow and a steep edge, given in two orders; a colinear one *)
 Example C19_tri_example :
